@@ -9,6 +9,7 @@ from bodies import enc
 from common import run_driver, scratch_dir
 from httpdrv import make_server, parse_multistatus
 import translate
+import transval
 
 AUDIT = "Audit/C12.lean"
 MODULE = "Xandikos.Theorems.C12"
@@ -192,6 +193,8 @@ def regen(chk):
     chk.extra["translation"] = {"collation._match+collations": "ok" if text else "unavailable: " + err}
     if err:
         chk.notes.append("translation of collation.py unavailable (%s): tied by correspondence only" % err)
+    else:
+        transval.validate(chk, ["Collation"])
 
 
 def signature(f, impl, model):
